@@ -202,6 +202,11 @@ func vfClassOf(fsys *vfMemFS, ref []vfEntry, delim string, withMarker bool) stri
 	if delim != "" && delim != "/" && vfHasDirObj(fsys.root, true) {
 		return "@dirobj-with-children-nonslash-delim"
 	}
+	if delim == "/" && vfHasDirObj(fsys.root, true) {
+		// same root cause (Walk never emits a non-empty directory as an object when a delimiter is given); with "/" it shows
+		// only when the prefix names the directory itself, which needs three nodes / longer prefixes (thorough tier)
+		return "@dirobj-with-children-slash-delim"
+	}
 	return ""
 }
 
